@@ -49,3 +49,118 @@ def coded_const(name, value, byte_position=None, bits=8, semantic=None, dt=DataT
     return CodedConstParameter(oid=None, short_name=name, long_name=None, description=None, semantic=semantic,
                                diag_coded_type=std_type(bits, dt), coded_value=value, byte_position=byte_position,
                                bit_position=bit_position, sdgs=[])
+
+
+# ------------------------------------------------------------------------------------------------ more builders
+from odxtools.compumethods.compuinternaltophys import CompuInternalToPhys  # noqa: E402
+from odxtools.compumethods.compurationalcoeffs import CompuRationalCoeffs  # noqa: E402
+from odxtools.compumethods.compuscale import CompuScale  # noqa: E402
+from odxtools.compumethods.limit import IntervalType, Limit  # noqa: E402
+from odxtools.compumethods.linearcompumethod import LinearCompuMethod  # noqa: E402
+from odxtools.encoding import Encoding  # noqa: E402
+from odxtools.minmaxlengthtype import MinMaxLengthType, Termination  # noqa: E402
+from odxtools.nameditemlist import NamedItemList  # noqa: E402
+from odxtools.parameters.matchingrequestparameter import MatchingRequestParameter  # noqa: E402
+from odxtools.parameters.nrcconstparameter import NrcConstParameter  # noqa: E402
+from odxtools.parameters.physicalconstantparameter import PhysicalConstantParameter  # noqa: E402
+from odxtools.parameters.reservedparameter import ReservedParameter  # noqa: E402
+from odxtools.parameters.systemparameter import SystemParameter  # noqa: E402
+from odxtools.request import Request  # noqa: E402
+from odxtools.response import Response, ResponseType  # noqa: E402
+
+
+def linear(offset, factor, it=DataType.A_UINT32, pt=DataType.A_UINT32, lo=None, hi=None):
+    def lim(v):
+        return None if v is None else Limit(value_raw=str(v), value_type=it, interval_type=IntervalType.CLOSED)
+    scale = CompuScale(short_label=None, description=None, lower_limit=lim(lo), upper_limit=lim(hi),
+                       compu_inverse_value=None, compu_const=None,
+                       compu_rational_coeffs=CompuRationalCoeffs(value_type=pt, numerators=[offset, factor],
+                                                                 denominators=[]),
+                       domain_type=it, range_type=pt)
+    return LinearCompuMethod(category=CompuCategory.LINEAR,
+                             compu_internal_to_phys=CompuInternalToPhys(compu_scales=[scale], prog_code=None,
+                                                                        compu_default_value=None),
+                             compu_phys_to_internal=None, physical_type=pt, internal_type=it)
+
+
+def minmax_type(dt=DataType.A_BYTEFIELD, min_length=0, max_length=None, termination="ZERO", enc=None, hl=None):
+    return MinMaxLengthType(base_data_type=dt, base_type_encoding=enc, is_highlow_byte_order_raw=hl,
+                            min_length=min_length, max_length=max_length, termination=Termination[termination])
+
+
+def reserved(name, bits, byte_position=None, bit_position=None):
+    return ReservedParameter(oid=None, short_name=name, long_name=None, description=None, semantic=None,
+                             byte_position=byte_position, bit_position=bit_position, sdgs=[], bit_length=bits)
+
+
+def matching_request(name, request_byte_position, byte_length, byte_position=None):
+    return MatchingRequestParameter(oid=None, short_name=name, long_name=None, description=None, semantic=None,
+                                    byte_position=byte_position, bit_position=None, sdgs=[],
+                                    request_byte_position=request_byte_position, byte_length=byte_length)
+
+
+def nrc_const(name, values, byte_position=None, bits=8):
+    return NrcConstParameter(oid=None, short_name=name, long_name=None, description=None, semantic=None,
+                             byte_position=byte_position, bit_position=None, sdgs=[],
+                             diag_coded_type=std_type(bits), coded_values=list(values))
+
+
+def phys_const(name, the_dop, value_raw, byte_position=None):
+    p = PhysicalConstantParameter(oid=None, short_name=name, long_name=None, description=None, semantic=None,
+                                  byte_position=byte_position, bit_position=None, sdgs=[],
+                                  dop_ref=OdxLinkRef.from_id(the_dop.odx_id), dop_snref=None,
+                                  physical_constant_value_raw=value_raw)
+    p._dop = the_dop
+    p._physical_constant_value = the_dop.physical_type.base_data_type.from_string(value_raw)
+    return p
+
+
+def system_param(name, the_dop, sysparam, byte_position=None):
+    p = SystemParameter(oid=None, short_name=name, long_name=None, description=None, semantic=None,
+                        byte_position=byte_position, bit_position=None, sdgs=[],
+                        dop_ref=OdxLinkRef.from_id(the_dop.odx_id), dop_snref=None, sysparam=sysparam)
+    p._dop = the_dop
+    return p
+
+
+def request(params, name="rq"):
+    return Request(odx_id=OdxLinkId(f"id.{name}", FRAGS), oid=None, short_name=name, long_name=None,
+                   description=None, admin_data=None, parameters=NamedItemList(params), sdgs=[])
+
+
+def response(params, name="resp", kind="POSITIVE"):
+    return Response(odx_id=OdxLinkId(f"id.{name}", FRAGS), oid=None, short_name=name, long_name=None,
+                    description=None, admin_data=None, parameters=NamedItemList(params), sdgs=[],
+                    response_type=ResponseType[kind])
+
+
+# ------------------------------------------------------------------------------------------------ complex DOPs
+from odxtools.endofpdufield import EndOfPduField  # noqa: E402
+from odxtools.staticfield import StaticField  # noqa: E402
+from odxtools.structure import Structure  # noqa: E402
+
+
+def structure(name, params, byte_size=None):
+    return Structure(odx_id=OdxLinkId(f"id.{name}", FRAGS), oid=None, short_name=name, long_name=None,
+                     description=None, admin_data=None, sdgs=[], parameters=NamedItemList(params),
+                     byte_size=byte_size, is_visible_raw=None)
+
+
+def end_of_pdu_field(name, struct, min_items=None, max_items=None):
+    f = EndOfPduField(odx_id=OdxLinkId(f"id.{name}", FRAGS), oid=None, short_name=name, long_name=None,
+                      description=None, admin_data=None, sdgs=[], structure_ref=OdxLinkRef.from_id(struct.odx_id),
+                      structure_snref=None, env_data_desc_ref=None, env_data_desc_snref=None, is_visible_raw=None,
+                      min_number_of_items=min_items, max_number_of_items=max_items)
+    f._structure = struct
+    f._env_data_desc = None
+    return f
+
+
+def static_field(name, struct, n_items, item_byte_size):
+    f = StaticField(odx_id=OdxLinkId(f"id.{name}", FRAGS), oid=None, short_name=name, long_name=None,
+                    description=None, admin_data=None, sdgs=[], structure_ref=OdxLinkRef.from_id(struct.odx_id),
+                    structure_snref=None, env_data_desc_ref=None, env_data_desc_snref=None, is_visible_raw=None,
+                    fixed_number_of_items=n_items, item_byte_size=item_byte_size)
+    f._structure = struct
+    f._env_data_desc = None
+    return f
